@@ -42,7 +42,6 @@ def env():
     e["TZ"] = "UTC"
     e.pop("GOTOOLCHAIN", None) if e.get("GOTOOLCHAIN") == "local" else None
     e.pop("GOSUMDB", None) if e.get("GOSUMDB") == "off" else None
-    e.setdefault("GOCACHE", os.path.join(WORK, "gocache"))
     return e
 
 
@@ -91,6 +90,9 @@ def build_harness():
     """go build the dump and drive binaries against /repo's working tree."""
     os.makedirs(BIN, exist_ok=True)
     hdir = os.path.join(VERIF, "harness")
+    with open(os.path.join(hdir, "go.mod"), "w") as f:
+        f.write("module verifharness\n\ngo 1.24.0\n\nrequire github.com/ovh/kmip-go v0.0.0\n\n"
+                "replace github.com/ovh/kmip-go => %s\n" % REPO)
     # go.sum must match /repo's
     try:
         shutil.copyfile(os.path.join(REPO, "go.sum"), os.path.join(hdir, "go.sum"))
